@@ -395,6 +395,13 @@ func filterShape(tb *TermBuilder, fn *ssa.Function, offline int64) (bool, string
 
 func runC07(cx *CheckCtx) {
 	w := cx.W
+	// "only with both the node's own witness and the Alphabet's": the T-witness gates of the
+	// candidate entry points (the same rule C03 runs for every method)
+	for _, name := range []string{"AddPeer", "AddPeerIR", "AddNode", "UpdateState", "UpdateStateIR", "DeleteNode"} {
+		if m := cx.method("netmap", name); m != nil {
+			gateRule(cx, m)
+		}
+	}
 	consts := nodeStateConsts(cx)
 	online, haveOnline := consts["Online"]
 	if !haveOnline || len(consts) < 3 {
